@@ -76,3 +76,24 @@ func (pid PeerID) Pretty() (r string)
   trusted
   assigns nothing
 @*/
+
+// ---- C19: hash of a marshalled object (CalculateHash) ----
+/*@
+// marshalStr(m, o): the bytes (as a string) the marshalizer m produces for object o; marshalFails(m, o): Marshal reports an error.
+// The encoding is a function of the marshalizer and the object (identity) in the heap the verified function runs in.
+spec fn marshalStr(m marshal.Marshalizer, o interface{}) string
+spec fn marshalFails(m marshal.Marshalizer, o interface{}) bool
+
+func (m marshal.Marshalizer) Marshal(obj interface{}) (r []byte, err error)
+  ensures  deterministic-failure: (err != nil) == marshalFails(m, obj)
+  ensures  deterministic-bytes: err == nil ==> str(r) == marshalStr(m, obj)
+  assigns  nothing
+
+func (h hashing.Hasher) Compute(s string) (r []byte)
+  pure
+
+func CalculateHash(marshalizer marshal.Marshalizer, hasher hashing.Hasher, object interface{}) (r []byte, err error)
+  ensures  hash-of-encoding: err == nil ==> r == hasher.Compute(marshalStr(marshalizer, object))
+  ensures  fails-iff: (err != nil) == (isNil(marshalizer) || isNil(hasher) || marshalFails(marshalizer, object))
+  assigns  nothing
+@*/
